@@ -131,8 +131,8 @@ PROPS = {
     },
     "C20": {
         "lean_modules": ["C20"],
-        "pre_cmds": ["python3 tools/asmx/asmx.py /repo/divmod_amd64.s lean/TensorModel/Generated/DivmodAsm.lean"],
-        "trusted_extra": ["tools/asmx (Plan-9 amd64 text -> instruction list; unknown forms become Instr.unknown, on which the interpreter is stuck) and the meaning lean/TensorModel/Asm.lean gives to MOVQ/CMPQ/JEQ/JNE/JMP/CQO/IDIVQ/NEGQ/RET"],
+        "pre_cmds": ["python3 tools/asmx/asmx.py /repo/divmod_amd64.s lean/TensorModel/Generated/DivmodAsm.lean", GOL],
+        "trusted_extra": ["tools/asmx (Plan-9 amd64 text -> instruction list; unknown forms become Instr.unknown, on which the interpreter is stuck) and the meaning lean/TensorModel/Asm.lean gives to MOVQ/CMPQ/JEQ/JNE/JMP/CQO/IDIVQ/NEGQ/RET", GOL_TRUST],
         "builds": [["default", "verif"], ["noasm", "verif noasm"], ["inplace", "verif inplacetranspose"]],
         "rule": "engines {default, Float64Engine, Float32Engine} x Add in modes {safe, unsafe, reuse, incr} x operand layouts {contiguous, lazily transposed, sliced, column-major}; FMA with tensor and scalar multiplier; mismatched shapes; plus samples of the C03 (transposition sequences), C05 (iterators) and C06 (arithmetic) domains; every program is executed by three harness binaries built from the current tree with tags {verif}, {verif,noasm}, {verif,inplacetranspose}, and each must equal the single, configuration-independent model and specification output",
     },
